@@ -460,9 +460,32 @@ class StartStageHandler(
                     )
             return
         except ConcurrencyError:
-            # Another handler already claimed this stage (race condition with
-            # multiple upstream stages completing simultaneously). This is safe
-            # to ignore - the stage is already being processed.
+            # Usually another handler claimed this stage first (several upstream
+            # stages completing at once): the stage is being processed and this
+            # StartStage is a duplicate. But any other writer of the still
+            # unclaimed row loses us the version race as well - a persistent
+            # signal buffered on it, join bookkeeping of an upstream completion.
+            # Then nobody has started the stage and dropping the message would
+            # leave it NOT_STARTED forever: queue the start again.
+            fresh = self.repository.retrieve_stage(stage.id)
+            if (
+                claim_expected_phase == "NOT_STARTED"
+                and fresh is not None
+                and fresh.status == WorkflowStatus.NOT_STARTED
+            ):
+                logger.debug(
+                    "Claim of %s lost a version race but the stage is still unclaimed, re-queuing StartStage",
+                    stage.name,
+                )
+                self.queue.push(
+                    StartStage(
+                        execution_type=message.execution_type,
+                        execution_id=message.execution_id,
+                        stage_id=message.stage_id,
+                        retry_count=getattr(message, "retry_count", 0) or 0,
+                    )
+                )
+                return
             logger.debug(
                 "Ignoring duplicate StartStage for %s (concurrent claim)",
                 stage.name,
